@@ -180,6 +180,7 @@ def Mon.step (m : Mon) (line : String) (out : String) : Mon × Option String :=
   let ws := words out
   let res := ws.headD ""
   let wk := ws.contains "wake"
+  if ws.contains "stale-waker-woken" then (m, some "stale-waker-woken") else
   let r := Mon.step0 m line res
   let m1 := r.1
   let becameAll := m1.reached && !m.reached
